@@ -69,6 +69,20 @@ theorem C07_unclosed_at_end (p : Prio) (toks : Array Token) (fuel index depth : 
     build p toks (fuel + 1) index depth "(" res = .error .unclosed := by
   simp [build, h, hk]
 
+/-- an operator token that is neither a parenthesis nor in the priority table never yields a tree
+    (the pinned code skipped it: finding F51) -/
+theorem C07_unknown_operator (p : Prio) (toks : Array Token) (fuel index depth : Nat) (prev : String) (res : Option Tree)
+    (tok : Token) (h : toks[index]? = some tok) (hk : tok.kind = .op) (h1 : tok.text ≠ ")") (h2 : tok.text ≠ "(")
+    (hp : prioOf p tok.text = none) :
+    build p toks (fuel + 1) index depth prev res = .error .unknownOp := by
+  simp [build, h, hk, h1, h2, hp]
+
+/-- a string literal never yields a tree -/
+theorem C07_string_literal (p : Prio) (toks : Array Token) (fuel index depth : Nat) (prev : String) (res : Option Tree)
+    (tok : Token) (h : toks[index]? = some tok) (hk : tok.kind = .string) :
+    build p toks (fuel + 1) index depth prev res = .error .unexpectedString := by
+  simp [build, h, hk]
+
 /-! ### non-vacuity / regression witnesses on concrete token lists -/
 
 private def T (k : TokKind) (s : String) : Token := ⟨k, s⟩
@@ -85,6 +99,12 @@ example : (buildEvalTree Gen.opPriority
 
 example : (buildEvalTree Gen.opPriority
     [T .op "(", T .name "a", T .other "", T .endmarker ""]).toOption = none := by decide +kernel
+
+/-- `6 @ 2`, `6 <`, `3 'abc' m` are refused -/
+example : (buildEvalTree Gen.opPriority [T .number "6", T .op "@", T .number "2", T .other "", T .endmarker ""]).toOption = none
+    ∧ (buildEvalTree Gen.opPriority [T .number "6", T .op "<", T .other "", T .endmarker ""]).toOption = none
+    ∧ (buildEvalTree Gen.opPriority [T .number "3", T .string "'abc'", T .name "m", T .other "", T .endmarker ""]).toOption = none := by
+  decide +kernel
 
 /-- `8 ± 4 ** 2` (what `(8 ± 4) ** 2` is rewritten to): the plus-minus operator binds tighter than `**`
     (F39 repair; the pinned code read it as 8 ± (4 ** 2)) -/
